@@ -304,7 +304,32 @@ class Extractor:
             else:
                 args.append(self.expr(a, env))
         kwargs = {k.arg: self.expr(k.value, env) for k in node.keywords}
-        return self.on_call(node, fname, args, kwargs, env)
+        try:
+            return self.on_call(node, fname, args, kwargs, env)
+        except AlgError as first:
+            # a call `self._helper(...)` that the property's evaluator does not know: if the module
+            # has exactly one method of that name, evaluate its body in place (helper methods
+            # extracted from the function under analysis); attributes of self keep their meaning
+            clo = self._self_method(fname)
+            if clo is None:
+                raise
+            try:
+                return self.call_closure(clo, [Opaque("self")] + list(args), kwargs)
+            except AlgError:
+                raise first
+
+    def _self_method(self, fname):
+        if not fname or not fname.startswith("self.") or fname.count(".") != 1 or self.module is None or not hasattr(self.module, "funcs"):
+            return None
+        name = fname[5:]
+        cands = [f for q, f in self.module.funcs.items() if f.name == name and f.cls is not None and q == "%s.%s" % (f.cls, name)]
+        if len(cands) != 1 or cands[0].node.args.vararg is not None:
+            return None
+        f = cands[0]
+        if f.node.decorator_list:
+            return None
+        clo = Closure(f.node, {}, self, f.qualname)
+        return clo
 
     def call_closure(self, clo, args, kwargs):
         if self.depth >= self.max_depth:
